@@ -76,6 +76,8 @@ pub fn gen_cfg(rng: &mut Rng, prof: &Profile, tier_thorough: bool) -> SimCfg {
         max_steps: 400,
         probe: *prof == Profile::Probe,
         age_pending_secs: if *prof == Profile::Timeout && mpp_s >= 5 { *rng.pick(&[None, Some(0u64), Some(mpp_s / 2), Some(mpp_s + 10), Some(3)]) } else { None },
+        probe_age_secs: if *prof == Profile::Probe && rng.chance(1, 2) { Some(mpp_s + 100) } else { None },
+        probe_same_process: *prof == Profile::Probe && rng.chance(1, 3),
     }
 }
 
@@ -132,6 +134,10 @@ pub fn std_payload_recs(rng: &mut Rng, amt: u64, expiry: u32, total: Option<u64>
     }
     if rng.chance(1, 4) {
         v.push((65537 + 2 * rng.below(4), rng.rbytes(40)));
+    }
+    if rng.chance(1, 3) {
+        // neighbours of the payment-metadata record (16)
+        v.push((*rng.pick(&[11u64, 13, 15, 17, 19, 0xfd, 0xff]), rng.rbytes(12)));
     }
     if rng.chance(1, 8) {
         v.push((0x1_0000_0001 + 2 * rng.below(4), rng.rbytes(300)));
@@ -404,8 +410,13 @@ pub fn gen_plan(rng: &mut Rng, prof: &Profile, thorough: bool) -> Plan {
         h.copy_from_slice(&rng.bytes(32));
         let am = 1 + rng.below(5_000_000);
         let expiry = height.saturating_add(50 + rng.below(2000) as u32);
-        let kind = rng.below(7);
+        let kind = rng.below(10);
         let metadata = match kind {
+            // length-prefixed streams: unusable as trampoline metadata, but they make the plugin
+            // take its payload-rewrite path (record 16 stripped from the continue payload)
+            7 => Metadata::Raw(with_len_prefix(&enc_stream(&[(33003, tu64(am))]))),
+            8 => Metadata::Raw(with_len_prefix(&enc_stream(&[(1, rng.bytes(2)), (33001, b"lnbc1notaninvoice".to_vec())]))),
+            9 => Metadata::Raw(with_len_prefix(&enc_stream(&[(33001, vec![0xff, 0xfe]), (33003, rng.bytes(9))]))),
             0 | 1 => Metadata::None,
             2 => Metadata::Raw(rng.rbytes(40)),
             3 => Metadata::Raw(enc_stream(&[(1, rng.bytes(4)), (7, rng.bytes(9))])),
